@@ -365,3 +365,227 @@ func (g *Graph) MustReachExit(gen func(b *cfg.Block) bool) []bool {
 	}
 	return out
 }
+
+// leaves calls f on the leaves of a condition under &&, || and !.
+func leaves(e ast.Expr, f func(ast.Expr)) {
+	e = ast.Unparen(e)
+	switch x := e.(type) {
+	case *ast.BinaryExpr:
+		if s := x.Op.String(); s == "&&" || s == "||" {
+			leaves(x.X, f)
+			leaves(x.Y, f)
+			return
+		}
+	case *ast.UnaryExpr:
+		if x.Op.String() == "!" {
+			leaves(x.X, f)
+			return
+		}
+	}
+	f(e)
+}
+
+// ReachSome computes reachability under an assumption that decides some
+// condition leaves (assume) while taking path correlation through the other
+// leaves of the *same* conditions into account: a refactoring such as
+//
+//	switch { case incY == 1 && beta == 0: …; case incY == 1: scale(beta) … }
+//
+// puts a leaf the assumption decides (beta == 0) next to one it does not
+// (incY == 1), and the second case is reached with incY == 1 only if the first
+// was false, i.e. beta != 0. The undecided leaves that share a condition with
+// a decided leaf and that are stable (stable reports that the leaf's operands
+// cannot change during the function) are enumerated (at most 8, as `x == c`
+// with `x != c` as its negation); a block is reported reachable if it is
+// reachable from the entry under at least one truth assignment. Every
+// concrete execution satisfying the assumption agrees with one assignment, so
+// the result over-approximates the feasible paths.
+func (g *Graph) ReachSome(assume func(ast.Expr) (bool, bool), stable func(ast.Expr) bool) []bool {
+	norm := func(e ast.Expr) (string, bool) {
+		if be, ok := e.(*ast.BinaryExpr); ok && be.Op.String() == "!=" {
+			return types.ExprString(be.X) + " == " + types.ExprString(be.Y), true
+		}
+		return types.ExprString(e), false
+	}
+	var free []string
+	seen := map[string]bool{}
+	for _, b := range g.Blocks {
+		c := Cond(b)
+		if c == nil {
+			continue
+		}
+		if _, known := Eval3(c, assume); known {
+			continue
+		}
+		decided := false
+		leaves(c, func(l ast.Expr) {
+			if _, k := assume(l); k {
+				decided = true
+			}
+		})
+		if !decided {
+			continue
+		}
+		leaves(c, func(l ast.Expr) {
+			if _, k := assume(l); k || !stable(l) {
+				return
+			}
+			if key, _ := norm(l); !seen[key] && len(free) < 8 {
+				seen[key] = true
+				free = append(free, key)
+			}
+		})
+	}
+	out := make([]bool, len(g.Blocks))
+	saved := g.Keep
+	for mask := 0; mask < 1<<len(free); mask++ {
+		val := map[string]bool{}
+		for i, k := range free {
+			val[k] = mask&(1<<i) != 0
+		}
+		g.Keep = KeepUnder(func(e ast.Expr) (bool, bool) {
+			if v, k := assume(e); k {
+				return v, true
+			}
+			key, neg := norm(e)
+			if v, ok := val[key]; ok {
+				return v != neg, true
+			}
+			return false, false
+		})
+		for i, r := range g.Reachable() {
+			if r {
+				out[i] = true
+			}
+		}
+	}
+	g.Keep = saved
+	return out
+}
+
+// StableLeaf returns a predicate for condition leaves whose value cannot
+// change while body runs: no calls other than len, no indexing or
+// dereference, and only variables that body never assigns (parameters,
+// captured variables) or assigns exactly once (:= locals).
+func StableLeaf(info *types.Info, body *ast.BlockStmt) func(ast.Expr) bool {
+	nassign := map[types.Object]int{}
+	obj := func(id *ast.Ident) types.Object {
+		if o := info.Defs[id]; o != nil {
+			return o
+		}
+		return info.Uses[id]
+	}
+	ast.Inspect(body, func(n ast.Node) bool {
+		switch x := n.(type) {
+		case *ast.AssignStmt:
+			for _, l := range x.Lhs {
+				if id, ok := l.(*ast.Ident); ok {
+					if o := obj(id); o != nil {
+						nassign[o]++
+					}
+				}
+			}
+		case *ast.IncDecStmt:
+			if id, ok := x.X.(*ast.Ident); ok {
+				if o := obj(id); o != nil {
+					nassign[o] += 2
+				}
+			}
+		case *ast.RangeStmt:
+			for _, e := range []ast.Expr{x.Key, x.Value} {
+				if id, ok := e.(*ast.Ident); ok {
+					if o := obj(id); o != nil {
+						nassign[o] += 2
+					}
+				}
+			}
+		case *ast.UnaryExpr:
+			if x.Op.String() == "&" {
+				if id, ok := ast.Unparen(x.X).(*ast.Ident); ok {
+					if o := obj(id); o != nil {
+						nassign[o] += 2
+					}
+				}
+			}
+		}
+		return true
+	})
+	return func(e ast.Expr) bool {
+		ok := true
+		ast.Inspect(e, func(n ast.Node) bool {
+			switch x := n.(type) {
+			case *ast.CallExpr:
+				if id, isID := x.Fun.(*ast.Ident); !isID || id.Name != "len" {
+					ok = false
+				}
+			case *ast.IndexExpr, *ast.StarExpr, *ast.SliceExpr:
+				ok = false
+			case *ast.Ident:
+				if v, isVar := obj(x).(*types.Var); isVar && nassign[v] > 1 {
+					ok = false
+				}
+			}
+			return ok
+		})
+		return ok
+	}
+}
+
+// WithBoolDefs extends an assumption to boolean locals that body assigns
+// exactly once (`unitary := incX == 1 && incY == 1`): such a leaf is evaluated
+// through its definition, three-valued, before it is left undecided.
+func WithBoolDefs(info *types.Info, body *ast.BlockStmt, assume func(ast.Expr) (bool, bool)) func(ast.Expr) (bool, bool) {
+	obj := func(id *ast.Ident) types.Object {
+		if o := info.Defs[id]; o != nil {
+			return o
+		}
+		return info.Uses[id]
+	}
+	n := map[types.Object]int{}
+	def := map[types.Object]ast.Expr{}
+	ast.Inspect(body, func(nd ast.Node) bool {
+		switch x := nd.(type) {
+		case *ast.AssignStmt:
+			for i, l := range x.Lhs {
+				if id, ok := l.(*ast.Ident); ok {
+					if o := obj(id); o != nil {
+						n[o]++
+						if len(x.Lhs) == len(x.Rhs) {
+							def[o] = x.Rhs[i]
+						}
+					}
+				}
+			}
+		case *ast.ValueSpec:
+			for i, id := range x.Names {
+				if o := obj(id); o != nil && len(x.Values) == len(x.Names) {
+					n[o]++
+					def[o] = x.Values[i]
+				}
+			}
+		}
+		return true
+	})
+	var out func(e ast.Expr) (bool, bool)
+	depth := 0
+	out = func(e ast.Expr) (bool, bool) {
+		if v, k := assume(e); k {
+			return v, true
+		}
+		if id, ok := ast.Unparen(e).(*ast.Ident); ok && depth < 5 {
+			o := obj(id)
+			if o == nil || n[o] != 1 || def[o] == nil {
+				return false, false
+			}
+			if b, ok := o.Type().Underlying().(*types.Basic); !ok || b.Kind() != types.Bool {
+				return false, false
+			}
+			depth++
+			v, k := Eval3(def[o], out)
+			depth--
+			return v, k
+		}
+		return false, false
+	}
+	return out
+}
